@@ -187,7 +187,7 @@ func TestC13Faults(t *testing.T) {
 // TestC13Rejected: statements with a static fault must not touch storage.
 func TestC13Rejected(t *testing.T) {
 	rapid.Check(t, func(rt *rapid.T) {
-		base, pairs := genC14Base(rt)
+		base, pairs := genC14Base(rt, false)
 		mut, fault := mutateStmt(rt, base)
 		if mut == nil {
 			return
